@@ -14,12 +14,18 @@ ASSUMPTIONS = ["the sum of the constant terms is non-zero (else the group key is
 TRUSTED = ["modelled, not verified: field/module laws of the curve libraries; HDKG (any function in the theorems)"]
 
 
-def run(sess, suite, n, t, kind):
+def run(sess, suite, n, t, kind, clones=0):
     rng = sess.rng
     fld = Fld(suite)
     start = len(sess.records)
     ids = make_ids(sess, suite, n, kind)
-    d = Dkg(sess, suite, n, t, ids).run()
+    order = sorted(ids, key=lambda h: fld.dec(h))
+    same = ()
+    if clones >= 2:
+        k0 = rng.randrange(0, n - clones + 1)
+        same = tuple(order[k0:k0 + clones])       # adjacent in identifier order, identical polynomials
+        sess.count("identical-polynomials")
+    d = Dkg(sess, suite, n, t, ids).run(same)
     rp = lambda: [x[0] for x in sess.records[start:]]
     if not sess.oracle(d.ok, "honest DKG step failed (%s)" % (getattr(d, "err", None) and d.err.raw), rp()):
         return
@@ -55,6 +61,11 @@ def run(sess, suite, n, t, kind):
 def generate(sess):
     rng = sess.rng
     thorough = sess.tier != "quick"
+    for suite in TOY_SUITES + REAL_SUITES:
+        evalpoly_stream(sess, suite, 30 if thorough else 10)
+        run(sess, suite, 3, 2, "default", clones=2)
+        if thorough or suite in TOY_SUITES:
+            run(sess, suite, 4, 3, rng.choice(ID_KINDS), clones=rng.choice([2, 3]))
     for suite in TOY_SUITES:
         for n in range(2, 7 if thorough else 6):
             for t in range(2, n + 1):
